@@ -99,6 +99,8 @@ class Check(BaseCheck):
                    're-entrancy is exercised to nesting depth 2, as the statement says')
     SHARD_TIMEOUT = {'quick': 900, 'thorough': 7200}
 
+    NO_AMBIENT = ('crowd', 'rendezvous', 'coldstart')      # need a process of their own kind (address space, a cold start)
+
     def plan(self, tier, seed):
         q = tier == 'quick'
         specs = [{'campaign': 'sentinels'}, {'campaign': 'bindings', 'seed': seed}]
@@ -108,6 +110,8 @@ class Check(BaseCheck):
             specs.append({'campaign': 'threads', 'seed': seed, 'i': i, 'runs': 3 if q else 12, 'evals': 180 if q else 600})
         for i in range(6 if q else 24):
             specs.append({'campaign': 'coldstart', 'seed': seed, 'i': i, 'threads': [2, 4, 8][i % 3], 'p_yield': [0.02, 0.2, 0][i % 3] if i % 6 < 3 else 0.1, 'formulas': 300 if q else 1200})
+        for i in range(4 if q else 8):
+            specs.append({'campaign': 'disturbers', 'i': i, 'k': 4 if q else 8} if not q else {'campaign': 'disturbers', 'i': i * 6, 'k': 24})
         specs.append({'campaign': 'rendezvous', 'seed': seed, 'rounds': 4 if q else 40})
         specs.append({'campaign': 'crowd', 'seed': seed, 'sizes': [8, 100, 300] if q else [8, 70, 100, 300, 600], 'address_space_gb': 96})
         return specs
@@ -118,7 +122,15 @@ class Check(BaseCheck):
         self.current_mode = '-'
         self.current_depth = 0
         self.setter_first = False
+        # an evaluation that changes a process-wide setting has influenced every other parser there is (census shared with C02)
+        from . import c02 as C02
+        before = C02.Check.process_settings()
         getattr(self, 'c_' + spec['campaign'])(spec, rec)
+        after = C02.Check.process_settings()
+        rec.count('process_settings_compared', len(before))
+        for k in before:
+            if before[k] != after[k] and k not in ('switchinterval', 'stack_size'):       # the thread campaigns set and restore these two themselves
+                rec.violation('C03/evaluation-changed-a-process-wide-setting:' + k, setting=k, before=before[k], after=after[k], campaign=spec['campaign'])
 
     # ------------------------------------------------------------------ formulas
     def formulas(self, rnd, n):
@@ -685,6 +697,51 @@ class Check(BaseCheck):
             rec.count('crowd_evaluations_in_flight_together', len(entered))
 
     # ------------------------------------------------------------------ sentinels
+    # ------------------------------------------------------------------ what one parser evaluates is no other parser's history
+    def c_disturbers(self, spec, rec):
+        """Parser B (and a parser made for the occasion, and a thread) evaluates every supported function on arguments at the
+        interpreter's and the library's limits; after each, a fixed set of probes on parser A - built and first evaluated before any
+        of that - must still yield what it yielded alone.  The channel may be anything process-wide: an interpreter setting, a module
+        attribute, a cache, a class attribute."""
+        import threading
+        hotxlfp = env.load()
+        from hotxlfp import formulas
+        A, B = World(1, self), World(2, self)
+        probes = ['CF(1)&FACT(1800)', 'FACT(1800)&""', 'LEN(FACT(1500))', '10^400&""', 'CONCATENATE(FACT(1700),"x")', 'TEXTJOIN(",",TRUE,FACT(1600))', 'foo&2^5000', 'FACT(1559)&""',
+                  'SUM(A1,B2)*foo', 'ROMAN(foo+1990)', 'DATE(2020,1,foo)+A1', 'COUNTIF(B2:C3,">1")+foo', '1/0', 'nosuch', 'CF(A1:B2)&tagv', '0.1+0.2', 'ROUND(2.675,2)', 'TEXT(1234.5,"0.00")',
+                  'DATEVALUE("2020-03-01")', 'UPPER("straße")', 'LEFT("abc",2)&RIGHT("abc",1)', '{1,2}+{3,4}', 'MATCH("b*",{"ab","bc"},0)', 'SUMIF({1,2,3},">1")', '"1"+"2"', 'TRUE+1', '12345678901234567890+1']
+        solo = [A.run(f) for f in probes]
+        args = ['FACT(2000)', 'FACT(5000)', '10^4400', '-10^4400', '2^40000', '"' + 'x' * 5000 + '"', '1E+308', '1E-320', 'lst', 'A1:B2', '""', 'NULL', 'TRUE', '"#N/A"', '1/0', 'tagv', '-1', '0', '2.5',
+                '{1,2,3}', 'DATE(9999,12,31)', '"2020-02-30"', 'REPT("ab",3000)', '123456789012345678901234567890']
+        names = formulas.supported()[spec['i']::spec['k']]
+        n = 0
+        for fn in names:
+            for k, a in enumerate(args):
+                for shape in ('%s(%s)', '%s(%s,2)', '%s(1,%s)'):
+                    g = shape % (fn, a)
+                    who = (n % 5)
+                    if who < 3:
+                        B.run(g)
+                    elif who == 3:
+                        World(2, self).run(g)
+                    else:
+                        t = threading.Thread(target=lambda: B.run(g))
+                        t.start()
+                        t.join()
+                    n += 1
+                    rec.case()
+                    if n % 7 and k:
+                        continue
+                    for f, want in zip(probes, solo):
+                        got = A.run(f)
+                        rec.case()
+                        if got != want:
+                            rec.violation('C03/evaluation-on-another-parser-changes-a-later-outcome', probe=f, alone=want, now=got, after_other_parser_evaluated=g[:200])
+                            solo[probes.index(f)] = got      # report a change once
+                    rec.nt(('disturber', g[:80]))
+        rec.count('disturbing_evaluations', n)
+        rec.sample({'probe': probes[0], 'after': 'LEN(FACT(2000)) evaluated on another parser', 'what': 'what one parser evaluates is no other parser\'s history'})
+
     def c_sentinels(self, spec, rec):
         hotxlfp = env.load()
         B = hotxlfp.Parser()
